@@ -566,6 +566,8 @@ def run_R(case):
 # ------------------------------------------------------------------ P: one-field settings profiles, fitted and stored
 DEV = {"developer_mode": True, "silent_developer_mode": True}
 HOURLY_PROFILES = [  # every field of the hourly settings tree moved to another accepted value, one at a time (seed fixed)
+    ("seed=2**32-1", {"seed": 2**32 - 1}),   # the largest seed the settings accept (the clustering uses seed + i)
+    ("seed=0", {"seed": 0}),
     ("en.fit_intercept=False", {"elasticnet": {"fit_intercept": False}}),
     ("en.precompute=True", {"elasticnet": {"precompute": True}}),
     ("en.copy_x=False", {"elasticnet": {"copy_x": False}}),
